@@ -4,11 +4,19 @@ import (
 	_ "verif/props/c01"
 	_ "verif/props/c02"
 	_ "verif/props/c03"
+	_ "verif/props/c04"
+	_ "verif/props/c05"
+	_ "verif/props/c06"
+	_ "verif/props/c07"
+	_ "verif/props/c08"
 	_ "verif/props/c09"
 	_ "verif/props/c10"
+	_ "verif/props/c12"
+	_ "verif/props/c13"
 	_ "verif/props/c14"
 	_ "verif/props/c20"
 	_ "verif/props/c27"
 	_ "verif/props/c28"
+	_ "verif/props/c29"
 	_ "verif/props/c36"
 )
